@@ -380,6 +380,43 @@ func execScript(args []string) (res result) {
 	var bg chan struct{}      // a ProcessPacket / Scan call running in the background while the gate is held
 	seenAttempts := 0
 	take := func() [][]byte { seenAttempts = conn.Attempts(); return conn.Take() }
+	// ARGUMENT OWNERSHIP. A real caller hands the handler views of its own buffers (StartHunt(frame.SrcAddr), frames
+	// parsed in one receive buffer) and reuses them as soon as the call returns. So every MAC argument lives in
+	// this scratch buffer and every received frame in this receive buffer, and both are overwritten right after
+	// the call returns (another host's MAC / zeros / the router's MAC, in turn). The model takes arguments as
+	// values: a handler that retains a caller's slice instead of a copy diverges from it.
+	scratch := make([]byte, 32)
+	rxbuf := make([]byte, 2048)
+	nScribble := 0
+	defer0 := false // the receive buffer was handed to the handler during this event
+	own := func(slot int, m net.HardwareAddr) net.HardwareAddr {
+		if m == nil {
+			return nil
+		}
+		b := scratch[slot*8 : slot*8+len(m) : slot*8+len(m)]
+		copy(b, m)
+		return b
+	}
+	scribble := func() {
+		var pat []byte
+		switch nScribble % 3 {
+		case 0:
+			pat = mac6(macs[(nScribble/3)%len(macs)])
+		case 1:
+			pat = []byte{0, 0, 0, 0, 0, 0}
+		default:
+			pat = c.routerMAC
+		}
+		nScribble++
+		for i := range scratch {
+			scratch[i] = pat[i%6]
+		}
+		for i := range rxbuf {
+			rxbuf[i] = pat[i%6]
+		}
+	}
+	// one receive buffer for all frames
+	recv := func(b []byte) []byte { n := copy(rxbuf, b); return rxbuf[:n:n] }
 	// The session's offer table is the handler's environment: it changes by SetDHCPv4IPOffer but also
 	// when Parse moves an IP between MACs and drops a MAC entry. Whatever changed is reported to the
 	// model as an explicit "O" event before the handler runs.
@@ -452,7 +489,8 @@ func execScript(args []string) (res result) {
 		f := strings.Split(t, ",")
 		switch f[0] {
 		case "S":
-			h.StartHunt(packet.Addr{MAC: mac6(f[1]), IP: ip4(f[2])})
+			h.StartHunt(packet.Addr{MAC: own(0, mac6(f[1])), IP: ip4(f[2])})
+			scribble()
 			// what the new goroutine emits belongs to the D token that follows; nothing is taken here
 			obs = append(obs, "-")
 			toks = append(toks, t)
@@ -462,7 +500,8 @@ func execScript(args []string) (res result) {
 			obs = append(obs, showOut(take()))
 			toks = append(toks, t)
 		case "T":
-			h.StopHunt(packet.Addr{MAC: mac6(f[1])})
+			h.StopHunt(packet.Addr{MAC: own(0, mac6(f[1]))})
+			scribble()
 			obs = append(obs, showOut(take()))
 			toks = append(toks, t)
 		case "C":
@@ -487,6 +526,10 @@ func execScript(args []string) (res result) {
 				dst = c.hostMAC
 			}
 			b := lib.MkEther(dst, mac6(f[2]), 0x0806, lib.MkARP(uint16(op), mac6(f[3]), ip4(f[4]), mac6(f[5]), ip4(f[6])))
+			if !gated {
+				b = recv(b) // the caller's one receive buffer (a held ProcessPacket keeps its own until it returns)
+				defer0 = true
+			}
 			frame, err := session.Parse(b)
 			syncOffers()
 			toks = append(toks, t)
@@ -570,6 +613,8 @@ func execScript(args []string) (res result) {
 		case "X":
 			et, _ := strconv.ParseUint(f[1], 16, 16)
 			b := lib.MkEther(packet.EthernetBroadcast, mac6(macs[0]), uint16(et), lib.UnHex(f[2]))
+			b = recv(b)
+			defer0 = true
 			frame, _ := session.Parse(b) // whatever Parse hands over, error or not, goes to the handler
 			syncOffers()
 			toks = append(toks, t)
@@ -590,7 +635,8 @@ func execScript(args []string) (res result) {
 			obs = append(obs, showOut(take()))
 			toks = append(toks, t)
 		case "AT":
-			h.RequestTo(mac6(f[1]), ip4(f[2]))
+			h.RequestTo(own(0, mac6(f[1])), ip4(f[2]))
+			scribble()
 			obs = append(obs, showOut(take()))
 			toks = append(toks, t)
 		case "AP":
@@ -598,15 +644,18 @@ func execScript(args []string) (res result) {
 			obs = append(obs, showOut(take()))
 			toks = append(toks, t)
 		case "AA":
-			h.AnnounceTo(mac6(f[1]), ip4(f[2]))
+			h.AnnounceTo(own(0, mac6(f[1])), ip4(f[2]))
+			scribble()
 			obs = append(obs, showOut(take()))
 			toks = append(toks, t)
 		case "AW":
-			h.RequestRaw(mac6(f[1]), packet.Addr{MAC: mac6(f[2]), IP: ip4(f[3])}, packet.Addr{MAC: mac6(f[4]), IP: ip4(f[5])})
+			h.RequestRaw(own(0, mac6(f[1])), packet.Addr{MAC: own(1, mac6(f[2])), IP: ip4(f[3])}, packet.Addr{MAC: own(2, mac6(f[4])), IP: ip4(f[5])})
+			scribble()
 			obs = append(obs, showOut(take()))
 			toks = append(toks, t)
 		case "AY":
-			h.Reply(mac6(f[1]), packet.Addr{MAC: mac6(f[2]), IP: ip4(f[3])}, packet.Addr{MAC: mac6(f[4]), IP: ip4(f[5])})
+			h.Reply(own(0, mac6(f[1])), packet.Addr{MAC: own(1, mac6(f[2])), IP: ip4(f[3])}, packet.Addr{MAC: own(2, mac6(f[4])), IP: ip4(f[5])})
+			scribble()
 			obs = append(obs, showOut(take()))
 			toks = append(toks, t)
 		case "AS":
@@ -693,6 +742,10 @@ func execScript(args []string) (res result) {
 		}
 		if f[0] != "D" && f[0] != "L" && f[0] != "K" {
 			lastAt = -1
+		}
+		if defer0 {
+			scribble() // the receive buffer is reused for the next frame
+			defer0 = false
 		}
 	}
 	// nothing may trickle in after the last event
